@@ -20,7 +20,7 @@ ASSUMPTIONS = ["pre-emption at line granularity in the runner/storage modules an
                "locks are wrapped so that waiting is a scheduler decision; the locks themselves are real"]
 COMPONENTS = {"real": ["twosigma.memento (all)", "real threads, real thread-local call stacks, real locks", "tmpfs"],
               "stub": ["choice of which thread runs next (seeded scheduler)", "lock waiting", "uuid4, clock"]}
-REACH = ["threads_under_copied_context", "post_lifetime_checks", "fan_out_cases", "granularity:opcode", "granularity:wide", "context_calls", "exception_calls", "stale_version_runs", "preemptions", "forced_switches", "lock_contention", "cache_evictions", "batch_calls", "schedules_with_same_key_race"]
+REACH = ["non_memoized_failures", "threads_under_copied_context", "post_lifetime_checks", "fan_out_cases", "granularity:opcode", "granularity:wide", "context_calls", "exception_calls", "stale_version_runs", "preemptions", "forced_switches", "lock_contention", "cache_evictions", "batch_calls", "schedules_with_same_key_race"]
 
 PROGRAM = '''
 import twosigma.memento as m
@@ -28,6 +28,7 @@ from twosigma.memento.partition import InMemoryPartition
 from twosigma.memento.result import KeyOverrideResult
 from twosigma.memento.resource_function import resource_function
 from twosigma.memento.resource import ResourceHandle
+from twosigma.memento.exception import NonMemoizedException
 
 @resource_function(resource_type="vsim")
 def vres(url):
@@ -47,6 +48,12 @@ def rtop(x):
     a = rs(x)
     __vhint__()
     return [a, leaf(x)]
+
+@m.memento_function
+def nm(x):
+    __vtrace__("nm", x)
+    __vhint__()
+    raise NonMemoizedException("nm %d" % x)      # reaches every caller, is never stored: each call runs the body
 
 @m.memento_function
 def bad(x):
@@ -135,6 +142,8 @@ def expect(fn, x):
         return "v" * 1500 + str(x)
     if fn == "top":
         return [expect("mid", x), expect("f", x)]
+    if fn == "nm":
+        return ExpectedExc("NonMemoizedException", "nm %d" % x)
     if fn == "rs":
         return ["rs", x]
     if fn == "rtop":
@@ -180,7 +189,7 @@ def matches(got, exp):
 
 def closure(fn, x, ctx=None):
     """distinct calls (incl. nested) behind one call; ctx = the context argument they run under"""
-    if fn in ("leaf", "f", "bad", "wide", "ko", "rs"):      # (the fan-out of wide is not traced)
+    if fn in ("leaf", "f", "bad", "wide", "ko", "rs", "nm"):      # (the fan-out of wide is not traced)
         return {(fn, x, ctx)}
     if fn == "rtop":
         return {(fn, x, ctx), ("rs", x, ctx), ("leaf", x, ctx)}
@@ -204,7 +213,7 @@ def gen_case(seed, tier):
     fns = ["f", "leaf", "mid", "top"]
     rich = rng.random() < 0.5     # exceptions, partitions, context arguments, ignore_result
     if rich:
-        fns = fns + ["bad", "catcher", "part", "ko", "ko", "rs", "rtop"]
+        fns = fns + ["bad", "catcher", "part", "ko", "ko", "rs", "rtop", "nm"]
     fan = rng.random() < 0.02     # one thread's call fans out over 1300 distinct calls while the others run
     threads = {}
     base = [rng.choice(fns), rng.randrange(3)]
@@ -398,8 +407,16 @@ def execute(case):
             runs[(ev[0], ev[1])] = runs.get((ev[0], ev[1]), 0) + 1
         want_runs = {}
         for (fn_, x_, ctx_) in all_calls:      # one execution per distinct call = per (function, argument, context)
-            want_runs[(fn_, x_)] = want_runs.get((fn_, x_), 0) + 1
+            if fn_ != "nm":
+                want_runs[(fn_, x_)] = want_runs.get((fn_, x_), 0) + 1
+        nm_runs = {}                           # ... except for the call that is never memoized: one execution per call made
+        for script in case["threads"].values():
+            for op in script:
+                if op[1] == "nm":
+                    for x_ in (op[2] if op[0] == "batch" else [op[2]]):
+                        nm_runs[("nm", x_)] = nm_runs.get(("nm", x_), 0) + 1
         results = {}
+        mc = None
         if not viol:
             for name in sorted(case["threads"]):
                 t = sch.ts[name]
@@ -426,6 +443,10 @@ def execute(case):
                         viol.append(("wrong-value", {"op": op[0]}, {"thread": name, "op": op, "got": values.summary(r[1])}))
                     out.append("ok")
                 results[name] = out
+            for c in sorted(nm_runs):
+                if runs.get(c, 0) != nm_runs[c] and not viol:
+                    viol.append(("body-run-count", {"runs": "many" if runs.get(c, 0) > nm_runs[c] else "none", "scenario": "non-memoized"},
+                                 {"call": list(c), "runs": runs.get(c, 0), "expected": nm_runs[c]}))
             for c in sorted(want_runs):
                 n = runs.get(c, 0)
                 want = 0 if warm else want_runs[c]
@@ -470,6 +491,7 @@ def execute(case):
         st["batch_calls"] = sum(1 for s in case["threads"].values() for op in s if op[0] == "batch")
         st["context_calls"] = sum(1 for s in case["threads"].values() for op in s if op[0] == "ctx")
         st["exception_calls"] = sum(1 for s in case["threads"].values() for op in s if op[1] in ("bad", "catcher"))
+        st["non_memoized_failures"] = sum(1 for s in case["threads"].values() for op in s if op[1] == "nm")
         st["stale_version_runs"] = 1 if case.get("stale_versions") else 0
         st["granularity:" + gran] = 1
         emit({"viol": [[c, f, d] for c, f, d in viol], "stats": st, "results": results, "switches": sch.switches,
@@ -486,6 +508,8 @@ def execute(case):
         mod = world.load_module("vprog", PROGRAM)
         bad_ = []
         for (fn, x, ctx) in sorted(all_calls, key=lambda c: (c[0], c[1], -1 if c[2] is None else c[2])):
+            if fn == "nm":
+                continue        # never stored: a later caller executes it again, by design
             f = getattr(mod, fn)
             if ctx is not None:
                 f = f.with_context_args({"k": ctx})
